@@ -326,6 +326,7 @@ func (tsc *TransportServerConfiguration) IsEqual(resource Resource) bool {
 func compareObjectMetas(meta1 *metav1.ObjectMeta, meta2 *metav1.ObjectMeta) bool {
 	return meta1.Namespace == meta2.Namespace &&
 		meta1.Name == meta2.Name &&
+		meta1.UID == meta2.UID &&
 		meta1.Generation == meta2.Generation
 }
 
